@@ -170,6 +170,27 @@ def replay_batch_order(ids):
     return run
 
 
+def replay_alias_batch(cex):
+    """installed library: a batch derived by copy / replace(order=) / binning(1) does not share its image registry with its parent"""
+    with load.real_modules():
+        from acryo import BatchLoader, Molecules
+
+        bad = {}
+        for name, derive in (("copy()", lambda b: b.copy()), ("replace(order=3)", lambda b: b.replace(order=3)), ("binning(1)", lambda b: b.binning(1)), ("replace(output_shape)", lambda b: b.replace(output_shape=(2, 2, 2)))):
+            par = BatchLoader(order=1, scale=1.0, output_shape=(3, 3, 3))
+            par.add_tomogram(np.zeros((12, 12, 12), dtype=np.float32), Molecules(np.full((2, 3), 6.0)))
+            par.add_tomogram(np.ones((12, 12, 12), dtype=np.float32), Molecules(np.full((1, 3), 6.0)))
+            ch = derive(par)
+            ch.add_tomogram(np.full((12, 12, 12), 5.0, dtype=np.float32), Molecules(np.full((1, 3), 6.0)), image_id=5)
+            par.add_tomogram(np.full((12, 12, 12), 7.0, dtype=np.float32), Molecules(np.full((1, 3), 6.0)), image_id=5)
+            p_ids, c_ids = sorted(map(str, par.images)), sorted(map(str, ch.images))
+            pm = [round(float(x.mean())) for x in par.construct_dask().compute()]
+            cm = [round(float(x.mean())) for x in ch.construct_dask().compute()]
+            if len(par.images) != 3 or len(ch.images) != 3 or pm != [0, 0, 1, 7] or cm != [0, 0, 1, 5]:
+                bad[name] = {"parent_image_ids": p_ids, "child_image_ids": c_ids, "parent_subtomogram_means": pm, "child_subtomogram_means": cm}
+        return len(bad) > 0, {"problems": bad}
+
+
 def replay_autoid(cex):
     with load.real_modules():
         from acryo import BatchLoader, Molecules
@@ -391,13 +412,30 @@ def sec_batch_ops(rec, patches=None):
             ids_before = list(t.images)
             t.add_tomogram(stubs.ImgStub((200,) * 3, root="tomoD"), _molecules(MC, ["d0"], {"v": [9]}))
             hist = (ids_before, {k: im.root for k, im in t.images.items()}, t.molecules.features["row"].to_list(), t.molecules.features["image-id"].to_list())
-            return bl, f, h, hist
+            # history: derive without changing the molecules (copy / replace(order=) / binning(1)), then register a tomogram on one side: the other side is not affected
+            alias = {}
+            for name, derive in (("copy()", lambda b: b.copy()), ("replace(order=3)", lambda b: b.replace(order=3)), ("binning(1)", lambda b: b.binning(1)), ("replace(output_shape)", lambda b: b.replace(output_shape=(2, 2, 2)))):
+                par = BT.BatchLoader(order=1, scale=1, output_shape=SHAPE)
+                par.add_tomogram(stubs.ImgStub((200,) * 3, root="tomoA"), _molecules(MC, ["a0", "a1"], {"v": [1, 2]}))
+                par.add_tomogram(stubs.ImgStub((200,) * 3, root="tomoB"), _molecules(MC, ["b0"], {"v": [3]}))
+                ch = derive(par)
+                ch.add_tomogram(stubs.ImgStub((200,) * 3, root="tomoZ"), _molecules(MC, ["z0"], {"v": [9]}), image_id=5)
+                par.add_tomogram(stubs.ImgStub((200,) * 3, root="tomoY"), _molecules(MC, ["y0"], {"v": [8]}), image_id=6)
+                alias[name] = (sorted(im.root for im in par.images.values()), par.molecules.features["row"].to_list(), len(par.loaders),
+                               sorted(im.root for im in ch.images.values()), ch.molecules.features["row"].to_list(), len(ch.loaders))
+            return bl, f, h, hist, alias
 
         for pth in explore(run, max_paths=10):
             if not pth.ok:
                 rec.fact("batch-ops/runs", False, key="C03/batch/raises", detail={"exc": repr(pth.exc)[:300]})
                 continue
-            bl, f, h, hist = pth.result
+            bl, f, h, hist, alias = pth.result
+            for name, (pr, prow, pn, cr, crow, cn) in alias.items():
+                okp = pr == ["tomoA", "tomoB", "tomoY"] and prow == ["a0", "a1", "b0", "y0"] and pn == 3
+                okc = cr == ["tomoA", "tomoB", "tomoZ"] and crow == ["a0", "a1", "b0", "z0"] and cn == 3
+                okr, det = (True, {}) if (okp and okc) else replay_alias_batch({})
+                rec.fact(f"batch-ops/history: {name} then add_tomogram on either side leaves the other side alone", okp and okc, key="C03/batch/derived-shares-images",
+                         detail={"parent_images": pr, "parent_rows": prow, "child_images": cr, "child_rows": crow, **det}, reproduced=okr)
             ids_before, roots_after, rows_after, ids_after = hist
             img_of = dict(zip(rows_after, [roots_after[i] for i in ids_after]))
             ok_hist = img_of == {"b0": "tomoB", "c0": "tomoC", "c1": "tomoC", "d0": "tomoD"} and len(roots_after) == 3
